@@ -291,9 +291,29 @@ fn check_rotator(rng: &mut Rng, iters: u64) -> Option<Found> {
     None
 }
 
+/// open finding C10/C14 (lemma_stamp_is_checksummed): the stamp bytes [4,12) of an entry are outside the CRC
+fn check_stamp_covered(rng: &mut Rng) -> Option<Found> {
+    for (_, e) in make_entries(rng, 8, true) {
+        let img = e.encode();
+        for bit in [0usize, 7, 13, 63] {
+            let mut d = img.clone();
+            d[4 + bit / 8] ^= 1 << (bit % 8);
+            if let Ok(Some((g, n))) = decode(&d) {
+                if !same_entry(&g, &e) {
+                    return Some(Found { input: format!("entry {} with bit {} of its stamp field (bytes 4..12) flipped", show_entry(&e), bit),
+                        observed: format!("decode accepts it ({} bytes) as {}", n, show_entry(&g)),
+                        required: "None (corruption detected) or the entry that was written".into() });
+                }
+            }
+        }
+    }
+    None
+}
+
 pub fn search(_pid: &str, oid: &str, seed: u64) -> Option<Found> {
     let mut rng = Rng::new(seed + 10);
     let f = oid.split('/').nth(1).unwrap_or("");
+    if oid.contains("stamp_is_checksummed") { return check_stamp_covered(&mut rng); }
     if f.starts_with("WalRotator") || oid.starts_with("wal_files/") { if let Some(x) = check_rotator(&mut rng, 300) { return Some(x); } }
     if f.starts_with("WalReader") { if let Some(x) = check_reader(&mut rng, 600) { return Some(x); } }
     if let Some(x) = check_roundtrip(&mut rng, 400) { return Some(x); }
